@@ -1,5 +1,7 @@
+import layers
 import switches
 
 
 def check(rep, tier, replay=None):
     switches.run(rep, "C05")
+    layers.run(rep, 2)
